@@ -655,3 +655,79 @@ Proof.
   destruct Hf as (Hab & _ & _ & _ & Hop & _ & Hlog).
   exists st, pre, a, b, post. repeat split; auto; lia.
 Qed.
+
+(** * Physical layouts (files of records with times) satisfy the hypotheses *)
+From Ladim Require Import Proofs.TimeProofs.
+
+Lemma NoDup_nodupb l : NoDup l -> nodupb l = true.
+Proof.
+  induction 1 as [|x l Hn Hd IH]; cbn; auto.
+  rewrite memb_false by exact Hn. exact IH.
+Qed.
+Lemma NoDup_map_inj_on {A B} (f : A -> B) l :
+  (forall x y, In x l -> In y l -> f x = f y -> x = y) -> NoDup l -> NoDup (map f l).
+Proof.
+  induction l as [|a l IH]; intros Hinj Hn; cbn; [constructor|].
+  inversion Hn as [|? ? Hna Hnl]; subst. constructor.
+  - intro Hin. apply in_map_iff in Hin as (y & Hy & Hyl).
+    assert (y = a) by (apply Hinj; cbn; auto). subst. contradiction.
+  - apply IH; auto. intros x y Hx Hy. apply Hinj; cbn; auto.
+Qed.
+
+Lemma scan_file_steps t k recs : forall i,
+  map fstep (scan_file t k i recs) = map (fun r : record => time2step t (fst (fst r))) recs.
+Proof.
+  induction recs as [|[[time x] y] recs IH]; intros i; cbn; auto. rewrite IH. reflexivity.
+Qed.
+Lemma scan_files_steps t files : forall k,
+  map fstep (scan_files t k files) = map (time2step t) (layout_times files).
+Proof.
+  unfold layout_times.
+  induction files as [|f files IH]; intros k; cbn; auto.
+  rewrite !map_app, IH, scan_file_steps, !map_map. reflexivity.
+Qed.
+
+Lemma layout_nodup t files : 0 < dt t -> on_grid t files = true -> nodupb (layout_times files) = true ->
+  nodupb (map fstep (scan t files)) = true.
+Proof.
+  intros Hdt Hg Hn. apply NoDup_nodupb. unfold scan. rewrite scan_files_steps.
+  apply nodupb_NoDup in Hn. unfold on_grid in Hg. rewrite forallb_forall in Hg.
+  apply NoDup_map_inj_on; auto.
+  intros x y Hx Hy E.
+  rewrite <- (step2time_time2step t x Hdt) by (apply Z.eqb_eq; auto).
+  rewrite <- (step2time_time2step t y Hdt) by (apply Z.eqb_eq; auto).
+  rewrite E. reflexivity.
+Qed.
+
+Lemma nth_opt_mid {A} (pre : list A) x r : nth_opt (pre ++ x :: r) (length pre) = Some x.
+Proof. induction pre; cbn; auto. Qed.
+Lemma znth_opt_mid {A} (pre : list A) x r : znth_opt (pre ++ x :: r) (Z.of_nat (length pre)) = Some x.
+Proof.
+  unfold znth_opt. replace (Z.of_nat (length pre) <? 0) with false by (symmetry; apply Z.ltb_ge; lia).
+  rewrite Nat2Z.id. apply nth_opt_mid.
+Qed.
+
+Lemma scan_file_readable t files k file : znth_opt files k = Some file ->
+  forall recs pre, file = pre ++ recs ->
+  readable (scan_file t k (Z.of_nat (length pre)) recs) (disk_of files) = true.
+Proof.
+  intros Hk. induction recs as [|[[time x] y] recs IH]; intros pre E; [reflexivity|].
+  cbn [scan_file]. unfold readable. cbn [forallb ffile fidx].
+  unfold disk_of at 1. rewrite Hk, E, znth_opt_mid. cbn [andb].
+  replace (Z.of_nat (length pre) + 1) with (Z.of_nat (length (pre ++ [(time, x, y)])))
+    by (rewrite app_length; cbn [length]; lia).
+  apply IH. rewrite <- app_assoc. exact E.
+Qed.
+Lemma scan_files_readable t all : forall files pre, all = pre ++ files ->
+  readable (scan_files t (Z.of_nat (length pre)) files) (disk_of all) = true.
+Proof.
+  induction files as [|f files IH]; intros pre E; [reflexivity|].
+  cbn [scan_files]. unfold readable. rewrite forallb_app. apply andb_true_intro. split.
+  - apply (scan_file_readable t all _ f) with (pre := []); auto.
+    rewrite E. apply znth_opt_mid.
+  - replace (Z.of_nat (length pre) + 1) with (Z.of_nat (length (pre ++ [f])))
+      by (rewrite app_length; cbn [length]; lia).
+    apply IH. rewrite <- app_assoc. exact E.
+Qed.
+Lemma layout_readable t files : readable (scan t files) (disk_of files) = true.
+Proof. apply (scan_files_readable t files files []). reflexivity. Qed.
